@@ -209,6 +209,7 @@ func c23Encode(mode string, pieces [][]byte, cl int64) (blob []byte, err error) 
 			return nil, err
 		}
 		req.ContentLength = cl
+		req.State = new(bfe_http.RequestState) // as ReadRequest sets it; Write records BodySize there
 		err = req.Write(&buf)
 	}
 	if err != nil {
@@ -228,7 +229,7 @@ func c23Encode(mode string, pieces [][]byte, cl int64) (blob []byte, err error) 
 var c23DataAlphabet = []string{"a", "b", "0", "5", "f", "\r", "\n", "\r\n", " ", ";", ":", "0\r\n\r\n", "\x00", "\xff", "GET / HTTP/1.1\r\n", "1\r\nZ\r\n"}
 
 func genData(rt *rapid.T, label string, max int) []byte {
-	switch rapid.IntRange(0, 9).Draw(rt, label+"_kind") {
+	switch uni(rt, label+"_kind", 10) {
 	case 0:
 		return nil
 	case 1, 2, 3:
@@ -243,14 +244,14 @@ func genData(rt *rapid.T, label string, max int) []byte {
 }
 
 func genSegs(rt *rapid.T) []int {
-	if rapid.IntRange(0, 2).Draw(rt, "segmented") != 0 {
+	if uni(rt, "segmented", 3) != 0 {
 		return nil
 	}
 	return rapid.SliceOfN(rapid.IntRange(1, 64), 1, 12).Draw(rt, "segs")
 }
 
 func genPad(rt *rapid.T) int {
-	switch rapid.IntRange(0, 3).Draw(rt, "pad_kind") {
+	switch uni(rt, "pad_kind", 4) {
 	case 0:
 		return 0
 	case 1:
@@ -263,7 +264,7 @@ func genPad(rt *rapid.T) int {
 
 func fmtHex(rt *rapid.T, n uint64, label string) string {
 	h := fmt.Sprintf("%x", n)
-	switch rapid.IntRange(0, 3).Draw(rt, label+"_case") {
+	switch uni(rt, label+"_case", 4) {
 	case 1:
 		h = strings.ToUpper(h)
 	case 2:
@@ -275,7 +276,7 @@ func fmtHex(rt *rapid.T, n uint64, label string) string {
 		}
 		h = string(b)
 	}
-	switch rapid.IntRange(0, 5).Draw(rt, label+"_zeros") {
+	switch uni(rt, label+"_zeros", 6) {
 	case 0:
 		h = strings.Repeat("0", rapid.IntRange(1, 16-len(h)).Draw(rt, label+"_nz")) + h
 	case 1:
@@ -323,20 +324,20 @@ var c23TrailerValues = []string{"v", "", "a b", "\"q\"", "1, 2", "x:y"}
 
 func genValidStream(rt *rapid.T, allowExt bool) *c23Stream {
 	s := &c23Stream{lastEOL: "\r\n", finalEOL: "\r\n"}
-	n := rapid.IntRange(0, 5).Draw(rt, "nchunks")
+	n := uni(rt, "nchunks", 6)
 	for i := 0; i < n; i++ {
-		d := genData(rt, fmt.Sprintf("d%d", i), 300)
+		d := genData(rt, fmt.Sprintf("d%d", i, 6), 300)
 		if len(d) == 0 {
 			d = []byte("x")
 		}
 		c := c23Chunk{sizeLine: fmtHex(rt, uint64(len(d)), fmt.Sprintf("sz%d", i)), sizeEOL: "\r\n", data: d, dataEOL: "\r\n"}
-		if allowExt && rapid.IntRange(0, 5).Draw(rt, "ext?") == 0 {
+		if allowExt && uni(rt, "ext?", 6) == 0 {
 			c.sizeLine += rapid.SampledFrom(c23Exts).Draw(rt, "ext")
 		}
 		s.chunks = append(s.chunks, c)
 	}
 	s.lastLine = strings.Repeat("0", rapid.SampledFrom([]int{1, 1, 1, 2, 7, 16}).Draw(rt, "lastzeros"))
-	if allowExt && rapid.IntRange(0, 9).Draw(rt, "lastext?") == 0 {
+	if allowExt && uni(rt, "lastext?", 10) == 0 {
 		s.lastLine += rapid.SampledFrom(c23Exts).Draw(rt, "lastext")
 	}
 	nt := rapid.SampledFrom([]int{0, 0, 0, 1, 2, 3}).Draw(rt, "ntrailers")
@@ -359,10 +360,11 @@ func genMutatedStream(rt *rapid.T) (blob []byte, class string, noTail bool) {
 	}
 	ci := rapid.IntRange(0, len(s.chunks)-1).Draw(rt, "ci")
 	c := &s.chunks[ci]
-	onLast := rapid.IntRange(0, 3).Draw(rt, "on_last") == 0
+	onLast := uni(rt, "on_last", 4) == 0
 	hexLen := fmt.Sprintf("%x", len(c.data))
-	op := rapid.SampledFrom([]string{"size-empty", "size-17plus", "size-overflow", "size-nonhex", "size-trailing-ws",
-		"size-bare-lf", "data-eol", "size-off-by-one", "truncate", "trailer", "byte-edit", "size-huge16", "size-empty", "size-overflow", "size-17plus"}).Draw(rt, "op")
+	ops := []string{"size-empty", "size-17plus", "size-overflow", "size-nonhex", "size-trailing-ws",
+		"size-bare-lf", "data-eol", "size-off-by-one", "truncate", "trailer", "byte-edit", "size-huge16"}
+	op := ops[uni(rt, "op", len(ops))]
 	class = "mut:" + op
 	switch op {
 	case "size-empty":
@@ -429,7 +431,7 @@ func genMutatedStream(rt *rapid.T) (blob []byte, class string, noTail bool) {
 		if len(blob) > 0 {
 			blob = blob[:rapid.IntRange(0, len(blob)-1).Draw(rt, "cut")]
 		}
-		noTail = rapid.IntRange(0, 3).Draw(rt, "cut_notail") != 0
+		noTail = uni(rt, "cut_notail", 4) != 0
 	case "byte-edit":
 		if len(blob) > 0 {
 			i := rapid.IntRange(0, len(blob)-1).Draw(rt, "edit_at")
@@ -505,14 +507,14 @@ func TestC23(t *testing.T) {
 		c.Pad = genPad(rt)
 		c.Segs = genSegs(rt)
 		c.Tail = true
-		switch kind := rapid.IntRange(0, 9).Draw(rt, "kind"); {
-		case kind <= 1: // (a) encoder round trip
+		switch kind := uni(rt, "kind", 10); {
+		case kind <= 1: // (a, 10) encoder round trip
 			np := rapid.IntRange(0, 6).Draw(rt, "npieces")
 			var pieces [][]byte
 			var want []byte
 			for i := 0; i < np; i++ {
 				var p []byte
-				if rapid.IntRange(0, 19).Draw(rt, "big?") == 0 {
+				if uni(rt, "big?", 20) == 0 {
 					n := rapid.SampledFrom([]int{4095, 4096, 4097, 32768, 32769, 70000}).Draw(rt, "bign")
 					p = bytes.Repeat([]byte{byte('a' + i)}, n)
 				} else {
@@ -540,10 +542,10 @@ func TestC23(t *testing.T) {
 			c.Blob, c.Want, c.Class = blob, want, "encoder"
 			c.Tail = rapid.Bool().Draw(rt, "tail")
 		case kind <= 4: // (b) valid grammar
-			s := genValidStream(rt, rapid.IntRange(0, 2).Draw(rt, "allow_ext") == 0)
+			s := genValidStream(rt, uni(rt, "allow_ext", 3) == 0)
 			c.Blob, c.Class = s.render(), "valid"
-			c.Tail = rapid.IntRange(0, 3).Draw(rt, "tail") != 0
-		default: // (c) mutations
+			c.Tail = uni(rt, "tail", 4) != 0
+		default: // (c, 4) mutations
 			blob, class, noTail := genMutatedStream(rt)
 			c.Blob, c.Class, c.Tail = blob, class, !noTail
 		}
